@@ -72,6 +72,12 @@ def extras(ctx, thorough):
     # then the client's output queue (128); every request must still return
     for n in ((300, 450) if thorough else (300,)):
         out.append(_scen('rt-stall', {t: ["silence"] for t in range(1, n + 1)}, 1000, rng, nreq=n, stallafter=n, pipecap=2048, timeoutms=700))
+    # a peer that stops reading, or reads slowly, in the middle of a large request body: the request still ends at its timeout
+    for kind in ('stall', 'slow'):
+        extra = dict(stallafter=1, pipecap=65536, bigwin=True) if kind == 'stall' else dict(slowafter=1, slowms=5, pipecap=65536, bigwin=True)
+        sc = _scen('rt-%s-body' % kind, {1: ["silence"], 2: ["silence"]}, 10, rng, timeoutms=400, scribble=True, **extra)
+        sc['reqs'] = [{"tag": 1, "method": "POST", "bodyn": 3000000 if kind == 'stall' else 8000000, "atms": 0}, {"tag": 2, "method": "GET", "bodyn": 0, "atms": 50}]
+        out.append(sc)
     # dialling fails once the first connection(s) are used up
     for at in (1, 2):
         out.append(_scen('rt-dialfail', {1: ["ga_below", "ok"], 2: ["close"], 3: ["ok"]}, 1, rng, dialfailat=at))
